@@ -39,6 +39,8 @@ func checkC12(c *Check) {
 		rtSentinel(a, v)
 		rtRepublish(a, v)
 		rtUGeneric(a, v)
+		// the published token list must end at tokenIndex: the tail of a reused buffer holds an earlier input's tokens
+		rtTokens(a, v)
 	})
 }
 
@@ -116,6 +118,7 @@ func checkC11(c *Check) {
 		rtMaxToken(a, v)
 		rtCursor(a, v)
 		rtLineCol(a, v)
+		rtTranslateDomain(a, v)
 		rtRune(a, v)
 	})
 }
